@@ -1033,6 +1033,11 @@ func (e *Engine) builtin(fr *Frame, b *ssa.Builtin, c *ssa.CallCommon, args []Va
 		return nil
 	case "print", "println":
 		return nil
+	case "ssa:wrapnilchk":
+		if p, ok := args[0].(PtrVal); ok && p.slot == nil {
+			e.goPanic("value method called using nil pointer")
+		}
+		return args[0]
 	case "min", "max":
 		a, b2 := args[0].(*Term), args[1].(*Term)
 		if len(args) != 2 {
